@@ -111,12 +111,11 @@ Definition resolve_sel (tr : tree) (q : tsel) : res tname :=
 Definition final_types : list tname :=
   ["uima.cas.BooleanArray"; "uima.cas.ByteArray"; "uima.cas.DoubleArray"; "uima.cas.FloatArray";
    "uima.cas.IntegerArray"; "uima.cas.LongArray"; "uima.cas.ShortArray"; "uima.cas.StringArray"].
-(* TypeSystem.create_type: final check, duplicate check, supertype lookup (get_type: short names allowed), leaf added.
-   Re-declaring a predefined name (which the code lets through) is outside this model: see CorrC06.premises *)
+(* TypeSystem.create_type: duplicate check (predefined names included), supertype lookup (get_type: short names
+   allowed), final check on the resolved supertype, leaf added *)
 Definition create_type (tr : tree) (n sup : tname) : res tree :=
-  if memb sup final_types then Err EValue
-  else if has_type tr n then Err EValue
-  else do p <- resolve tr sup ;; Ok ((n, Some p) :: tr).
+  if has_type tr n then Err EValue
+  else do p <- resolve tr sup ;; if memb p final_types then Err EValue else Ok ((n, Some p) :: tr).
 
 (* ------------------------------------------------------------------ the index of one view (mechanism) *)
 
